@@ -34,7 +34,8 @@ def main():
     patch = os.path.join(d, "patch.diff")
     demo = os.path.join(d, "demo.py" if os.path.exists(os.path.join(d, "demo.py")) else "demo_test.py")
     out = {"dir": d, "property": pid, "summary": meta.get("summary", "")[:200]}
-    assert not subprocess.run(["git", "-C", "/repo", "status", "--porcelain", "--untracked-files=no"], capture_output=True, text=True).stdout.strip(), "/repo dirty"
+    if "--private" not in args:
+        assert not subprocess.run(["git", "-C", "/repo", "status", "--porcelain", "--untracked-files=no"], capture_output=True, text=True).stdout.strip(), "/repo dirty"
     if not skip_confirm:
         wt = tempfile.mkdtemp(prefix="seeded-confirm-", dir="/tmp")
         os.rmdir(wt)
@@ -55,6 +56,26 @@ def main():
         finally:
             sh(["git", "-C", "/repo", "worktree", "remove", "--force", wt])
             shutil.rmtree(wt, ignore_errors=True)
+    if "--private" in args:
+        # run the checks against a private worktree with the patch applied (VERIF_REPO), leaving /repo alone
+        pw = tempfile.mkdtemp(prefix="seeded-private-", dir="/tmp")
+        os.rmdir(pw)
+        sh(["git", "-C", "/repo", "worktree", "add", "-q", "--detach", pw, "HEAD"])
+        rc, o = sh(["git", "-C", pw, "apply", patch])
+        assert rc == 0, o
+        results = {}
+        try:
+            for c in checks:
+                rc, o = sh([os.path.join(VERIF, "check"), c, "--tier", tier], cwd=VERIF, env=dict(os.environ, VERIF_REPO=pw), timeout=7200)
+                sigs = [l.strip()[len("signature: "):] for l in o.splitlines() if l.strip().startswith("signature:")]
+                results[c] = {"exit": rc, "signatures": sigs[:8]}
+        finally:
+            sh(["git", "-C", "/repo", "worktree", "remove", "--force", pw])
+        out["checks"] = results
+        out["caught_by"] = [c for c, r in results.items() if r["exit"] == 1]
+        out["mode"] = "private worktree (VERIF_REPO)"
+        print(json.dumps(out, indent=1))
+        return
     # run the checks against /repo with the patch applied
     rc, o = sh(["git", "-C", "/repo", "apply", patch])
     assert rc == 0, o
